@@ -215,7 +215,15 @@ def run_pipeline(case):
     except Exception as e:
         return {"err": type(e).__name__, "msg": str(e)[:300]}
     st = build.assembly_stats
+    extra = {}
+    if case.get("want_csv"):
+        try:
+            extra["csv"] = [[k, st.chromosome_name_csv(a)] for k, a in out.items() if a.curated]
+            extra["report"] = st.chromosomes_report_csv(out)
+        except Exception as e:
+            extra["csv_err"] = type(e).__name__
     return {
+        **extra,
         "asms": [
             {
                 "key": k,
